@@ -136,7 +136,7 @@ def make_fe_case(seed: int, idx: int) -> dict[str, Any]:
     n = int(rng.integers(2, 8)) if rng.random() < 0.85 else int(rng.integers(8, 10))
     nops = int(rng.integers(2, 26))
     c = make_fe_circuit(rng, n, nops)
-    failing = rng.random() < 0.04
+    failing = rng.random() < 0.03
     passes = []
     for _ in range(2 if rng.random() < 0.3 and not failing else 1):
         rf: Any
@@ -896,7 +896,7 @@ def eval_control(case: dict[str, Any], cin: Any, cout: Any, data: Any, log: list
             where = {'unit_dtd': 'DoThenDecide_rejected_keeps_branch_mappings', 'unit_par': 'ParallelDo_selected_branch_mappings_lost'}.get(case['style'], 'nested')
             kind = 'control:become_omits_mappings:' + where
         else:
-            kind = 'control:state_differs:' + '+'.join(diff)
+            kind = 'control:result_differs:' + ('circuit_or_trace' if {'circuit', 'trace', 'script'} & set(diff) else 'pass_data')
         w.append(dict(
             kind=kind, fields=diff,
             expected={f: st[f] for f in diff if f in st}, observed={f: obs[f] for f in diff if f in obs},
@@ -932,6 +932,7 @@ def remote_error(e: BaseException) -> dict[str, Any]:
     txt = str(e.__cause__) if e.__cause__ is not None else str(e)
     d = parse_remote_error(txt)
     d['text'] = txt[-600:]
+    d['has_tb'] = 'Traceback' in txt or 'File "' in txt
     return d
 
 
@@ -957,7 +958,7 @@ def run_one(comp: Any, case: dict[str, Any], tmpdir: str, watchdog: int) -> dict
     except RuntimeError as e:
         raised = remote_error(e)
         res['rebuild'] = True
-        if 'Traceback' not in raised['text']:
+        if not raised['has_tb']:
             # no remote traceback: the connection to the server broke (seen
             # when a loaded machine delays worker start-up); not a verdict
             res['status'] = 'infrastructure'
@@ -991,6 +992,7 @@ def run_one(comp: Any, case: dict[str, Any], tmpdir: str, watchdog: int) -> dict
             if raised is None:
                 res['w'].append(dict(kind='foreach:body_failure_not_reported_to_client'))
             elif wl.BODY_FAIL_MSG not in raised['text']:
+                raised.pop('has_tb', None)
                 res['w'].append(dict(kind='foreach:body_failure_reported_as_other_error', **raised))
             else:
                 res['c']['failing_body_error_reached_client'] += 1
